@@ -252,46 +252,6 @@ class DictStore:
         return c
 
 
-def pinned_eq(stored, probe):
-    """the pinned tree's `stored == probe`: a KGChar equals a KGSym with the same text"""
-    if stored[0] == "c" and probe[0] == "y":
-        return stored[1] == probe[1]
-    return nkey_tok(stored) == nkey_tok(probe)
-
-
-class AssocStore:
-    """diagnostic twin of CPython's dict with an arbitrary (possibly asymmetric) comparison;
-    used only to classify a failure as the recorded char/symbol finding"""
-
-    def __init__(self, eq):
-        self.eq = eq
-        self.l = []
-
-    def get(self, k):
-        for p in self.l:
-            if self.eq(p[0], k):
-                return p[1]
-        return None
-
-    def set(self, k, v):
-        for p in self.l:
-            if self.eq(p[0], k):
-                p[1] = v
-                return
-        self.l.append([k, v])
-
-    def delete(self, k):
-        self.l = [p for p in self.l if not self.eq(p[0], k)]
-
-    def items(self):
-        return [(nkey_tok(k), v) for k, v in self.l]
-
-    def copy(self):
-        c = AssocStore(self.eq)
-        c.l = [list(p) for p in self.l]
-        return c
-
-
 UNSPEC = object()      # the property does not say what this step returns
 
 
@@ -542,7 +502,7 @@ def gen_op(rng, st, pool):
     r = rng.random()
     if r < 0.08:
         return dict(op="lit", x=rng.choice(VARS), ps=gen_pairs(rng, pool, rng.randrange(0, 5)))
-    if r < 0.13 or (r < 0.24 and not st.protos):
+    if r < 0.11 or (r < 0.24 and not st.protos):
         return dict(op="deffn", f=rng.choice(FNS), form=rng.choice(["plain", "local"]),
                     ps=gen_pairs(rng, pool, rng.randrange(0, 4)))
     if r < 0.24:
@@ -595,41 +555,73 @@ def _fail_key(op, what):
     return f"{op['op']}:{what}"
 
 
-def explained_by_pinned(ops, trace):
-    """does the pinned char/symbol comparison reproduce the real run exactly?"""
-    sim = Machine(mk=lambda: AssocStore(pinned_eq))
-    try:
-        for op, (obs, dig, probes) in zip(ops, trace):
-            exp = sim.apply(op)
-            if exp is UNSPEC:
-                sim.adopt(op, obs)
-            elif exp != obs:
-                return False
-            if sim.digest() != dig:
-                return False
-            for (name, what, key), got in probes:
-                if sim.probe(name, what, key) != got:
-                    return False
-        return True
-    except Exception:  # noqa
-        return False
+class _Quiet:
+    """context stub for the re-run that classifies a failure (records, reports nothing)"""
+
+    def __init__(self, rng=None):
+        self.failed = []
+        self.rng = rng
+
+    def oracle_fail(self, key, *a, **k):
+        self.failed.append(key)
+
+    def mismatch(self, *a, **k):
+        pass
+
+    def bump(self, *a, **k):
+        pass
+
+    def count(self, *a, **k):
+        pass
+
+    def sample(self, *a, **k):
+        pass
 
 
-def has_char_and_symbol(ops, pool):
+def colliding_texts(ops, pool):
     ks = [k for op in ops for k in keys_of(op)] + list(pool)
-    cs = {k[1] for k in ks if k[0] == "c"}
-    ys = {k[1] for k in ks if k[0] == "y"}
-    return bool(cs & ys)
+    return {k[1] for k in ks if k[0] == "c"} & {k[1] for k in ks if k[0] == "y"}
 
 
-def run_history(ctx, drv, label, ops=None, pool=None, length=0):
+def rename_apart(ops, pool, texts):
+    """the same history with every symbol KEY whose text is also a character key renamed"""
+    def rk(k):
+        return ["y", k[1] + "zq"] if k[0] == "y" and k[1] in texts else k
+
+    out = []
+    for op in ops:
+        o = dict(op)
+        if "k" in o:
+            o["k"] = rk(o["k"])
+        if "ks" in o:
+            o["ks"] = [rk(k) for k in o["ks"]]
+        if "ps" in o:
+            o["ps"] = [[rk(p[0]), p[1]] for p in o["ps"]]
+        out.append(o)
+    return out, [rk(k) for k in pool]
+
+
+def vanishes_when_renamed(ops, pool):
+    """is the failure due to a character key meeting the symbol with the same text?  It is iff the
+    same history, with those symbols renamed apart, satisfies the oracle on the real code.  (The
+    pinned comparison is asymmetric, so which of two matching entries CPython meets first depends
+    on the hash table layout; an exact simulation is not possible, this re-run is.)"""
+    texts = colliding_texts(ops, pool)
+    if not texts:
+        return False
+    ops2, pool2 = rename_apart(ops, pool, texts)
+    q = _Quiet()
+    run_history(q, None, "renamed", ops=ops2, pool=pool2, classify=False)
+    return not q.failed
+
+
+def run_history(ctx, drv, label, ops=None, pool=None, length=0, classify=True):
     """one history on the real interpreter, the Lean machine and the dict oracle.
     `ops` given: replay that list; otherwise generate `length` steps from ctx.rng."""
     real = Real()
     oracle = Machine()
     fixed = ops is not None
     done = []
-    trace = []
     if pool is None:
         pool = []
         for op in ops or []:
@@ -645,9 +637,9 @@ def run_history(ctx, drv, label, ops=None, pool=None, length=0):
                     program=[klong_text(o) for o in done])
 
     def fail(key, expected, observed, what):
-        """property failure on the real code; classified as the recorded finding when the pinned
-        char/symbol comparison explains the whole run"""
-        if has_char_and_symbol(done, pool) and explained_by_pinned(done, trace):
+        """property failure on the real code; classified as the recorded finding when it vanishes
+        once the symbols that share their text with a character key are renamed apart"""
+        if classify and vanishes_when_renamed(done, pool):
             key = KNOWN_CHAR_SYM
             what = "a stored character key compares equal to a probing symbol with the same text (not vice versa)"
         ctx.oracle_fail(key, case(), expected, observed, what)
@@ -671,7 +663,6 @@ def run_history(ctx, drv, label, ops=None, pool=None, length=0):
             probes.append(((name, "each", None), real.probe(name, "each")))
             for k in pool:
                 probes.append(((name, "find", k), real.probe(name, "find", k)))
-        trace.append((obs, dig, probes))
         ctx.bump("op:" + op["op"])
         for k in keys_of(op):
             ctx.bump("keykind:" + k[0])
